@@ -182,6 +182,7 @@ class Backend(ABC):
         )
         self.last_processing_pipeline.vars["backend"] = self.name
         self.last_processing_pipeline.vars["output_format"] = output_format or self.default_format
+        self._last_processing_pipeline_format = output_format or self.default_format
 
     def convert(
         self,
@@ -249,10 +250,13 @@ class Backend(ABC):
             List of converted queries
         """
         try:
-            # Initialize processing pipeline if not already done
+            # Initialize processing pipeline if not already done or if it was initialized for
+            # another output format (each output format can have its own pipeline).
             if (
                 not hasattr(self, "last_processing_pipeline")
                 or self.last_processing_pipeline is None
+                or getattr(self, "_last_processing_pipeline_format", None)
+                not in (None, output_format or self.default_format)
             ):
                 self.init_processing_pipeline(output_format)
 
